@@ -35,6 +35,12 @@ RULE = ('seeded random histories (3..16 operations) over the hierarchy HA(x) <- 
         'for the whole history (never culled), create / get / assignment / destroySelf, UPDATEs of one level\'s row behind the ORM, and sync() / '
         'syncUpdate() / expire() on the instance of any level of the _parent chain of what get hands out through any entry class; the rare other '
         'operations in them run on an emptied identity map. '
+        'Held-object histories (n/4 random + every class x level x attribute): no fetch between the steps -- a read of ONE attribute through the '
+        'instance of one level of the object handed out last, an assignment that is not read back, sync() / expire() on the instance of any level, '
+        'UPDATEs behind the ORM: chains are partially loaded / expired when the next call comes. '
+        'lazyUpdate histories (oracle only; n/6 random + every class x column x level assigned through x level flushed x {syncUpdate, sync}): '
+        'HA..HC/HB2 with sqlmeta.lazyUpdate = True on the root, assignments through any level, syncUpdate / sync / expire on any level, all '
+        'attributes read through every level and raw dumps after every step. '
         'Non-trivial = the history holds a subclass instance and reaches it through an ancestor class or selects on a subclass; '
         'distinct = distinct (mode, warm, operation list).')
 EXPLANATION = ('Theorems over Model/Inherit.v (unbounded histories, both connection modes) + correspondence of the model with the real '
@@ -56,7 +62,11 @@ TRUSTED_BASE = [
     'instance histories (Model/InheritInst.v): the identity map is modelled for create / get / attribute assignment / destroySelf / sync / '
     'syncUpdate / expire of rows whose tables nest (autocommit, no reference rows); every other operation is run on an emptied identity map and '
     'empties it (harness and model alike); cache culling is switched off (cullFrequency) -- weak references and the garbage collector are outside; '
-    'direct updates only: sqlmeta.lazyUpdate hierarchies are not modelled (behaviour recorded by experiment in docs/notes/C15.md)',
+    'direct updates only: sqlmeta.lazyUpdate hierarchies are NOT in the Coq model; the lazy stream is judged by the oracle alone (its cases reach '
+    'Coq as the empty history, `agree` is trivially true for them): own bookkeeping of what was assigned / flushed / expired per level against '
+    'the attributes read through every level and the raw tables',
+    'held-object operations (HRead / HSet / HSync / HExpire) assume the program holds the object handed out last for the row; histories using them '
+    'contain no operation that empties the identity map',
     'a level without an own column is presented to the model as a level whose nullable column is always NULL (create arguments, views and dumps show NULL there); '
     'non-inheritable (_inheritable = False) column-less leaves, the only case in which the unchanged get() skips the child query, are not covered',
     'fixture-specific: at most one own Int column per class; filters use only columns visible from the selected class (own + inherited); '
@@ -143,7 +153,7 @@ class Sim(object):
         self.vals.pop(i, None)
 
 
-INST_OPS = ('create', 'get', 'setattr', 'destroy', 'rawset', 'sync', 'syncupdate', 'expire')
+INST_OPS = ('create', 'get', 'setattr', 'destroy', 'rawset', 'sync', 'syncupdate', 'expire', 'hread', 'hset', 'hsync', 'hexpire')
 SHAPES = [['B'], ['C'], ['B2'], ['B', 'C'], ['B', 'B2'], ['C', 'B2'], ['B', 'C', 'B2']]
 
 
@@ -399,6 +409,64 @@ def enum_shape_cases():
     return out
 
 
+def gen_held_history(rng, n):
+    """instance histories through HELD objects: no cold operation; most steps act on the object handed out last for the row
+    without fetching it again: a read of ONE attribute through the instance of one level, an assignment that is not read
+    back, sync / expire on the instance of any level -- so chains are partially loaded / expired when the next call comes"""
+    ops = []
+    sim = Sim('auto', ())
+    for _ in range(n):
+        r = rng.random()
+        fresh = 100 + len(ops)
+        live = sorted(sim.live)
+        if r < 0.12 or not live:
+            k = rng.choice(['A', 'B', 'C', 'C', 'C', 'B2'])
+            kw = {COLOF[c]: fresh for c in CHAIN[k]}
+            ops.append(['create', k, kw, False])
+            sim.create(k, kw, False)
+            continue
+        i = rng.choice(live) if rng.random() < 0.95 else rng.randint(1, sim.seq + 1)
+        ch = CHAIN[sim.live[i]] if i in sim.live and rng.random() < 0.95 else CLASSES
+        l = rng.choice(ch)
+        if r < 0.40:
+            ops.append(['hread', i, l, COLOF[rng.choice(CHAIN[l] if rng.random() < 0.95 else CLASSES)]])
+        elif r < 0.54:
+            ops.append(['rawset', l, i, fresh if rng.random() < 0.9 else rng.choice([1, None])])
+        elif r < 0.68:
+            ops.append(['hexpire', i, l])
+        elif r < 0.76:
+            ops.append(['hsync', i, l])
+        elif r < 0.84:
+            v = fresh if rng.random() < 0.85 else rng.choice([1, None, 'bad'])
+            ops.append(['hset', i, COLOF[l], v])
+        elif r < 0.90:
+            ops.append(['get', rng.choice(ch), i])
+        elif r < 0.95:
+            ops.append([rng.choice(['expire', 'sync']), rng.choice(ch), i, l])
+        elif r < 0.98:
+            ops.append(['setattr', rng.choice(ch), i, COLOF[l], fresh])
+        else:
+            ops.append(['destroy', rng.choice(ch), i])
+            sim.destroy(i)
+    return {'mode': 'auto', 'warm': True, 'conn': 'default', 'shape': [], 'inst': True, 'held': True, 'ops': ops}
+
+
+def enum_held_cases():
+    """every class x refreshed level x read attribute: expire / sync of the held object, a read of ONE attribute (only that
+    level's instance reloads), UPDATE of every level behind the ORM, the call again, reads through every level"""
+    out = []
+    for k in CLASSES:
+        for l in CHAIN[k]:
+            for a in CHAIN[k]:
+                for what in ('hexpire', 'hsync'):
+                    ops = [['create', k, {COLOF[c]: 1 for c in CHAIN[k]}, False], ['hexpire', 1, k], ['hread', 1, k, COLOF[a]]]
+                    ops += [['rawset', c, 1, 10 + n] for n, c in enumerate(CHAIN[k])]
+                    ops += [[what, 1, l]] + [['hread', 1, k, COLOF[c]] for c in CHAIN[k]]
+                    ops += [['hset', 1, COLOF[a], 30], ['hexpire', 1, l], ['hread', 1, l, COLOF[CHAIN[l][0]]], ['get', 'A', 1]]
+                    out.append({'mode': 'auto', 'warm': True, 'conn': 'default', 'shape': [], 'inst': True, 'held': True, 'ops': ops})
+    return out
+
+
 def gen_inst_history(rng, n):
     """instance histories: one identity map for the whole history; out-of-band UPDATEs, sync / syncUpdate / expire on the
     instance of any level of the _parent chain of what get hands out through any entry class"""
@@ -486,6 +554,16 @@ def enum_inst_cases():
 
 
 INST_CORPUS = [
+    # seeded C15/c15_second_expire_skips_ancestors: expire the held leaf, read only an inherited attribute (the ancestor reloads, the leaf
+    # stays expired), UPDATE behind the ORM, expire again, read
+    {'mode': 'auto', 'warm': True, 'conn': 'default', 'shape': [], 'inst': True, 'held': True,
+     'ops': [['create', 'C', {'x': 1, 'y': 1, 'z': 1}, False], ['hexpire', 1, 'C'], ['hread', 1, 'C', 'x'], ['rawset', 'A', 1, 5],
+             ['hexpire', 1, 'C'], ['hread', 1, 'C', 'x'], ['hread', 1, 'A', 'x'], ['get', 'A', 1]]},
+    # open finding expired_ancestor_instance_twin without any write behind the ORM: b = c._parent; b.expire(); HB.get(1); c.y = 17 (not read
+    # back); c.expire(); HC.get(1).y
+    {'mode': 'auto', 'warm': True, 'conn': 'default', 'shape': [], 'inst': True, 'held': True,
+     'ops': [['create', 'C', {'x': 1, 'y': 1, 'z': 1}, False], ['hexpire', 1, 'B'], ['syncupdate', 'B', 1, 'C'], ['hset', 1, 'y', 17],
+             ['hexpire', 1, 'C'], ['get', 'C', 1]]},
     # regression (finding sync_expire_skip_inherited_levels, fixed by /repo 47d20cb): sync() / expire() of the child reach the ancestors' instances
     {'mode': 'auto', 'warm': True, 'conn': 'default', 'shape': [], 'inst': True,
      'ops': [['create', 'C', {'x': 1, 'y': 1, 'z': 1}, False], ['rawset', 'A', 1, 5], ['rawset', 'C', 1, 7], ['sync', 'C', 1, 'C'], ['get', 'C', 1],
@@ -505,6 +583,207 @@ INST_CORPUS = [
 ]
 
 
+# ---------------------------------------------------------------- lazyUpdate hierarchies (oracle only: not in the Coq model)
+LTABLE = {'A': 'verif_c15_la', 'B': 'verif_c15_lb', 'C': 'verif_c15_lc', 'B2': 'verif_c15_lb2'}
+
+
+def lazy_fixture():
+    if 'lazy' in _FX:
+        return _FX['lazy']
+    from sqlobject import IntCol, dbconnection
+    from sqlobject.inheritance import InheritableSQLObject
+    from sqlobject.sqlite.sqliteconnection import SQLiteConnection
+    hub = _FX.setdefault('lhub', dbconnection.ConnectionHub())
+    hub.processConnection = SQLiteConnection(':memory:')
+
+    def mk(key, base, extra=None):
+        meta = {'registry': 'verif_c15_lazy', 'table': LTABLE[key]}
+        if key == 'A':
+            meta['lazyUpdate'] = True
+        attrs = {'sqlmeta': type('sqlmeta', (), meta), COLOF[key]: IntCol(default=None)}
+        attrs.update(extra or {})
+        return type('VerifC15L' + key, (base,), attrs)
+
+    LA = mk('A', InheritableSQLObject, {'_connection': hub})
+    LB = mk('B', LA)
+    LC = mk('C', LB)
+    LB2 = mk('B2', LA)
+    fx = {'hub': hub, 'A': LA, 'B': LB, 'C': LC, 'B2': LB2}
+    _FX['lazy'] = fx
+    return fx
+
+
+def gen_lazy_history(rng, n):
+    """sqlmeta.lazyUpdate = True on the root (inherited): assignments to own / inherited attributes through the instance of any
+    level of the held object's _parent chain, syncUpdate / sync / expire on any level, after every step the attributes read
+    through every level and the raw tables"""
+    ops = []
+    live = {}
+    for _ in range(n):
+        r = rng.random()
+        fresh = 100 + len(ops)
+        if r < 0.15 or not live:
+            k = rng.choice(['A', 'B', 'C', 'C', 'C', 'B2'])
+            ops.append(['create', k, {COLOF[c]: fresh for c in CHAIN[k]}])
+            live[len(live) + 1] = k
+            continue
+        i = rng.choice(sorted(live))
+        l = rng.choice(CHAIN[live[i]])
+        if r < 0.55:
+            ops.append(['lset', i, l, COLOF[rng.choice(CHAIN[l])], fresh if rng.random() < 0.9 else None])
+        elif r < 0.75:
+            ops.append(['lsyncupdate', i, l])
+        elif r < 0.85:
+            ops.append(['lsync', i, l])
+        elif r < 0.95:
+            ops.append(['lexpire', i, l])
+        else:
+            ops.append(['lread', i])
+    return {'mode': 'auto', 'warm': True, 'conn': 'default', 'shape': [], 'lazy': True, 'ops': ops}
+
+
+def enum_lazy_cases():
+    """every class x assigned column x level the assignment goes through x level flushed x {syncUpdate, sync}"""
+    out = []
+    for k in CLASSES:
+        for a in CHAIN[k]:
+            for via in [x for x in CHAIN[k] if a in CHAIN[x]]:
+                for l in CHAIN[k]:
+                    for what in ('lsyncupdate', 'lsync'):
+                        ops = [['create', k, {COLOF[c]: 1 for c in CHAIN[k]}], ['create', 'C', {'x': 2, 'y': 2, 'z': 2}],
+                               ['lset', 1, via, COLOF[a], 7], [what, 1, l], ['lset', 1, k, COLOF[a], 8], ['lset', 1, k, COLOF[k], 9],
+                               ['lexpire', 1, l], [what, 1, k], ['lset', 1, via, COLOF[a], 10], ['lexpire', 1, k], ['lread', 2]]
+                        out.append({'mode': 'auto', 'warm': True, 'conn': 'default', 'shape': [], 'lazy': True, 'ops': ops})
+    return out
+
+
+LAZY_CORPUS = [
+    # seeded C15/c15_syncupdate_stops_at_clean_ancestor: an assignment to the root's attribute through the leaf, the middle level clean
+    {'mode': 'auto', 'warm': True, 'conn': 'default', 'shape': [], 'lazy': True,
+     'ops': [['create', 'C', {'x': 1, 'y': 1, 'z': 1}], ['lset', 1, 'C', 'x', 5], ['lsyncupdate', 1, 'C'], ['lset', 1, 'C', 'x', 6],
+             ['lset', 1, 'C', 'z', 7], ['lsync', 1, 'C'], ['lexpire', 1, 'C']]},
+]
+
+
+def run_lazy(case):
+    fx = lazy_fixture()
+    from sqlobject.sqlite.sqliteconnection import SQLiteConnection
+    conn = SQLiteConnection(':memory:')
+    fx['hub'].processConnection = conn
+    for k in CLASSES:
+        fx[k].createTable()
+
+    def lvl(o, l):
+        p = o
+        while p is not None:
+            if type(p).__name__ == 'VerifC15L' + l:
+                return p
+            p = p._parent
+        return None
+
+    def lviews(o):
+        out = []
+        p = o
+        while p is not None:
+            k = type(p).__name__[len('VerifC15L'):]
+            out.append([k, [getattr(p, COLOF[c]) for c in CHAIN[k]]])
+            p = p._parent
+        return out
+
+    held = {}
+    steps = []
+    try:
+        for op in case['ops']:
+            t = op[0]
+            try:
+                if t == 'create':
+                    o = fx[op[1]](**op[2])
+                    held[o.id] = o
+                    r = ['id', o.id, op[1], None]
+                else:
+                    o = held.get(op[1])
+                    p = None if o is None or t == 'lread' else lvl(o, op[2])
+                    if o is None or (t != 'lread' and p is None):
+                        r = ['skip']
+                    else:
+                        if t == 'lset':
+                            setattr(p, op[3], op[4])
+                        elif t != 'lread':
+                            {'lsyncupdate': p.syncUpdate, 'lsync': p.sync, 'lexpire': p.expire}[t]()
+                        r = ['ok', o.id, None, None]
+            except Exception as e:
+                r = ['err', exn_name(e)]
+            tabs = {k: [[x[0], x[1], x[2] and x[2][len('VerifC15L'):]] for x in conn.queryAll(
+                'SELECT id, %s, child_name FROM %s ORDER BY id' % (COLOF[k], LTABLE[k]))] for k in CLASSES}
+            if r[0] in ('id', 'ok'):
+                # the raw tables were dumped BEFORE the attributes are read (a read after expire() reloads, it never writes)
+                try:
+                    r[3] = lviews(held[r[1]])
+                except Exception as e:
+                    r = ['err', 'views:' + exn_name(e)]
+            steps.append({'r': r, 't': tabs, 'refs': []})
+    finally:
+        try:
+            conn.close()
+        except Exception:
+            pass
+    return {'steps': steps}
+
+
+def lazy_failures(case, obs):
+    """the property on a lazyUpdate hierarchy: what is shown is shown identically through every level; an assignment writes
+    nothing before a flush; after syncUpdate()/sync() of an instance the row of its level and of every level above holds what it
+    shows; expire() drops what is queued at those levels (the stored value shows again); nothing else ever changes a table"""
+    rows = {}          # id -> {level: value} predicted stored values
+    exp = {}           # id -> {level: value} what must be shown
+    cls = {}
+    for n, (op, st) in enumerate(zip(case['ops'], obs['steps'])):
+        t, r, tabs = op[0], st['r'], st['t']
+
+        def fail(what, i):
+            return {'step': n, 'op': op, 'what': what, 'ids': [i], 'cause': None, 'mode': 'lazy'}
+        if r[0] == 'err':
+            yield fail('%s raised %s' % (t, r[1]), op[1] if t != 'create' else 0)
+            return
+        if t == 'create':
+            i = r[1]
+            cls[i] = op[1]
+            rows[i] = {c: op[2].get(COLOF[c]) for c in CHAIN[op[1]]}
+            exp[i] = dict(rows[i])
+        elif r[0] == 'ok':
+            i, k = op[1], cls[op[1]]
+            if t == 'lset':
+                exp[i][CLSOF[op[3]]] = op[4]
+            elif t in ('lsyncupdate', 'lsync'):
+                for c in CHAIN[op[2]]:
+                    rows[i][c] = exp[i][c]
+            elif t == 'lexpire':
+                for c in CHAIN[op[2]]:
+                    exp[i][c] = rows[i][c]
+        elif t != 'create' and op[1] in cls and (t == 'lread' or op[2] in CHAIN[cls[op[1]]]):
+            yield fail('%s: %r' % (t, r), op[1])
+        # the tables are exactly the predicted rows
+        for c in CLASSES:
+            want = sorted([j, rows[j][c], (CHAIN[cls[j]] + [None])[CHAIN[cls[j]].index(c) + 1]] for j in rows if c in rows[j])
+            if tabs[c] != want:
+                j = op[1] if t != 'create' else r[1]
+                yield fail('after %s table %s is %r; creation, flushes of an instance (its level and every level above) and nothing else '
+                           'write: %r expected' % (t, c, tabs[c], want), j)
+                return
+        if r[0] in ('id', 'ok'):
+            i = r[1]
+            for kk, vals in r[3]:
+                want = [exp[i][c] for c in CHAIN[kk]]
+                if vals != want:
+                    yield fail('after %s the %s instance of %d shows %r, expected %r (assigned values until expire(), identically through '
+                               'every level)' % (t, kk, i, vals, want), i)
+                    return
+            if [v[0] for v in r[3]] != list(reversed(CHAIN[cls[i]])):
+                yield fail('the _parent chain is %r' % [v[0] for v in r[3]], i)
+            if t == 'lexpire' or t == 'lread':
+                pass
+
+
 def corpus():
     return [
         # finding: a cascade=False reference to the middle level: the ancestor row is deleted before the refusal
@@ -518,7 +797,7 @@ def corpus():
                                               ['create', 'C', {'x': 2, 'y': 1, 'z': 2}, False], ['create', 'C', {'x': 1, 'y': 2, 'z': 2}, False],
                                               ['create', 'C', {'x': 2, 'y': 2, 'z': 2}, True], ['select', 'A', ['true']],
                                               ['create', 'C', {'x': 2, 'y': 2, 'z': 2}, False], ['get', 'A', 5]]},
-    ] + SEEDED + INST_CORPUS
+    ] + SEEDED + INST_CORPUS + LAZY_CORPUS
 
 
 SEEDED = [
@@ -550,17 +829,22 @@ SEEDED = [
 
 
 def generate(rng, tier):
-    out = list(enum_cases()) + enum_shape_cases() + enum_id_cases() + enum_inst_cases()
+    out = list(enum_cases()) + enum_shape_cases() + enum_id_cases() + enum_inst_cases() + enum_held_cases()
     n = 3000 if tier == "quick" else 30000
     for i in range(n):
         out.append(gen_history(rng, rng.randint(3, 16)))
     for i in range(n // 3):
         out.append(gen_inst_history(rng, rng.randint(4, 18)))
+    for i in range(n // 4):
+        out.append(gen_held_history(rng, rng.randint(5, 20)))
+    out += enum_lazy_cases()
+    for i in range(n // 6):
+        out.append(gen_lazy_history(rng, rng.randint(4, 18)))
     return out
 
 
 def search_cases(rng, tier):
-    return [gen_history(rng, rng.randint(3, 20)) for _ in range(2500)] + [gen_inst_history(rng, rng.randint(4, 20)) for _ in range(1500)]
+    return [gen_history(rng, rng.randint(3, 20)) for _ in range(2500)] + [gen_inst_history(rng, rng.randint(4, 20)) for _ in range(1500)] + [gen_held_history(rng, rng.randint(5, 20)) for _ in range(1500)] + [gen_lazy_history(rng, rng.randint(4, 18)) for _ in range(800)]
 
 
 # ---------------------------------------------------------------- implementation side
@@ -694,6 +978,8 @@ def from_tables(sel):
 
 
 def run_history(case):
+    if case.get('lazy'):
+        return run_lazy(case)
     shape = tuple(sorted(case.get('shape') or ()))
     fx = fixture(shape)
     from sqlobject.sqlite.sqliteconnection import SQLiteConnection
@@ -747,11 +1033,13 @@ def run_history(case):
         return sum(other.queryOne('SELECT COUNT(*) FROM %s' % tb)[0] for tb in list(TABLE.values()) + ['verif_c15_hr'])
 
     steps = []
+    held = {}          # instance histories: id -> the object handed out last for the row (what the program holds)
     try:
         for op in case['ops']:
             t = op[0]
             cold_op = inst and (t not in INST_OPS or (t == 'create' and len(op) > 4 and op[4] is not None))
             if not warm or cold_op:
+                held.clear()
                 conn.cache.clear()
                 if other is not None:
                     other.cache.clear()
@@ -764,12 +1052,33 @@ def run_history(case):
                         kw['id'] = op[4]
                     kw.update(ckw)
                     o = fx[op[1]](**kw)
+                    held[o.id] = o
                     r = ['id', o.id, KOFPY.get(canon(type(o).__name__), '?'), views(o, shape)]
                 elif t == 'get':
                     o = fx[op[1]].get(op[2], **ckw)
+                    held[o.id] = o
                     r = ['obj', o.id, KOFPY.get(canon(type(o).__name__), '?'), views(o, shape)]
+                elif t in ('hread', 'hset', 'hsync', 'hexpire'):
+                    o = held.get(op[1])
+                    if t == 'hset':
+                        if o is None or CLSOF[op[2]] not in CHAIN[KOFPY[canon(type(o).__name__)]]:
+                            r = ['skip']
+                        else:
+                            setattr(o, op[2], op[3])
+                            r = ['ok']
+                    else:
+                        p = None if o is None else level_inst(o, op[2])
+                        if p is None or (t == 'hread' and CLSOF[op[3]] not in CHAIN[op[2]]):
+                            r = ['skip']
+                        elif t == 'hread':
+                            r = ['val', getattr(p, op[3])]
+                        else:
+                            {'hsync': p.sync, 'hexpire': p.expire}[t]()
+                            r = ['ok']
+                        p = None
                 elif t in ('setattr', 'set'):
                     o = fx[op[1]].get(op[2], **ckw)
+                    held[o.id] = o
                     k = KOFPY[canon(type(o).__name__)]
                     if t == 'setattr':
                         if CLSOF[op[3]] not in CHAIN[k]:
@@ -802,13 +1111,16 @@ def run_history(case):
                     r = ['obj', o.id, KOFPY.get(canon(type(o).__name__), '?'), views(o, shape)]
                 elif t == 'destroy':
                     o = fx[op[1]].get(op[2], **ckw)
+                    held[o.id] = o
                     o.destroySelf()
+                    held.pop(op[2], None)
                     r = ['ok']
                 elif t == 'rawset':
                     conn.query('UPDATE %s SET %s = %s WHERE id = %d' % (TABLE[op[1]], COLOF[op[1]], 'NULL' if op[3] is None else '%d' % op[3], op[2]))
                     r = ['ok']
                 elif t in ('sync', 'syncupdate', 'expire'):
                     o = fx[op[1]].get(op[2], **ckw)
+                    held[o.id] = o
                     p = level_inst(o, op[3])
                     if p is None:
                         r = ['skip']
@@ -827,12 +1139,15 @@ def run_history(case):
             except Exception as e:
                 r = ['err', exn_name(e)]
             o = o2 = sel = objs = None
+            if not inst:
+                held.clear()
             tabs, refs = dump()
             st = {'r': r, 't': tabs, 'refs': refs}
             if other is not None:
                 st['other'] = dump_other()
             steps.append(st)
             if cold_op:
+                held.clear()
                 conn.cache.clear()
             if warm and nesting_ok(tabs) is not None:
                 warm = False
@@ -964,19 +1279,28 @@ class Track(object):
             if vals != [leaf[COLOF[c]] for c in CHAIN[kk]]:
                 out.append(('the %s instance of %d reads %r, the leaf reads %r: not identical through the levels' % (kk, i, vals, leaf), None))
         for c in ch:
-            sv, tv, t = leaf[COLOF[c]], want[COLOF[c]], self.t(i, c)
+            out += self.judge_col(i, c, leaf[COLOF[c]], want[COLOF[c]], 'through every level')
+        return out
+
+    def judge_col(self, i, c, sv, tv, how):
+            out = []
+            t = self.t(i, c)
             if sv != tv:
-                what = 'attribute %s of %d reads %r through every level, the %s row holds %r' % (COLOF[c], i, sv, c, tv)
+                what = 'attribute %s of %d reads %r %s, the %s row holds %r' % (COLOF[c], i, sv, how, c, tv)
                 if t['raw']:
                     if sv not in t['last']:
                         out.append((what + ' (and the row held %r since the value was last shown)' % (sorted(t['last'], key=repr),), None))
                 else:
                     out.append((what + ' although nothing was written behind the ORM since the level was last refreshed', 'twin' if t['twin'] == 2 else None))
             t['last'] = {sv}
-        return out
+            return out
 
 
 def failures(case, obs):
+    if case.get('lazy'):
+        for f in lazy_failures(case, obs):
+            yield f
+        return
     inst = bool(case.get('inst'))
     trk = Track()
     prev = {k: [] for k in CLASSES}
@@ -1094,6 +1418,49 @@ def failures(case, obs):
                 tt = trk.t(i, l)
                 tt['last'].add(prm[l][i][1])       # an instance may load the row at any get in between, unseen
                 tt['raw'] = True
+        elif t in ('hread', 'hset', 'hsync', 'hexpire'):
+            i = op[1]
+            k = born.get(i)
+            if t == 'hread':
+                if changed:
+                    fail('a read changed table(s) %s' % sorted(changed), [i])
+                okay = k is not None and op[2] in CHAIN[k] and CLSOF[op[3]] in CHAIN[op[2]]
+                if (r[0] == 'val') != okay:
+                    fail('read of %s through the %s instance of %d: %r' % (op[3], op[2], i, r), [i])
+                elif okay:
+                    c = CLSOF[op[3]]
+                    for m, cause in trk.judge_col(i, c, r[1], rm[c][i][1], 'through the held %s instance' % op[2]):
+                        fail('read: ' + m, [i] if cause is None else [], cause)
+            elif t == 'hset':
+                c = CLSOF[op[2]]
+                okay = k is not None and c in CHAIN[k]
+                for cc in CLASSES:
+                    want = [[x[0], op[3] if (cc == c and x[0] == i and r == ['ok']) else x[1], x[2]] for x in prev[cc]]
+                    if tabs[cc] != want:
+                        fail('assignment of %s through the held object of %d (%r): table %s is %r' % (op[2], i, r, cc, tabs[cc]), [i])
+                        break
+                if not okay and r != ['skip']:
+                    fail('assignment through the held object of %d: %r' % (i, r), [i])
+                if r == ['ok']:
+                    trk.t(i, c)['raw'] = False
+            else:
+                l = op[2]
+                if changed:
+                    fail('%s changed table(s) %s' % (t, sorted(changed)), [i])
+                okay = k is not None and l in CHAIN[k]
+                if (r == ['ok']) != okay:
+                    fail('%s on the %s instance of %d: %r' % (t, l, i, r), [i])
+                if r == ['ok']:
+                    for c in CHAIN[l]:
+                        tt = trk.t(i, c)
+                        tt['raw'] = False
+                        if t == 'hexpire' and l != k:
+                            tt['twin'] = tt['twin'] or 1
+                    if t == 'hexpire' and l == k:
+                        for c in CHAIN[k][:-1]:
+                            tt = trk.t(i, c)
+                            if tt['twin']:
+                                tt['twin'] = 2
         elif t in ('sync', 'syncupdate', 'expire'):
             i, l = op[2], op[3]
             if changed:
@@ -1257,6 +1624,8 @@ def oracle(case, obs):
 
 
 def nontrivial(case, obs):
+    if case.get('lazy'):
+        return any(op[0] == 'lset' and CLSOF[op[3]] != op[2] for op in case['ops'])
     born = {}
     for op, st in zip(case['ops'], obs.get('steps', [])):
         r = st['r']
@@ -1272,7 +1641,7 @@ def nontrivial(case, obs):
 
 
 def key(case):
-    return [case['mode'], case['warm'], case.get('conn', 'default'), case.get('shape') or [], case['ops']] + (['inst'] if case.get('inst') else [])
+    return [case['mode'], case['warm'], case.get('conn', 'default'), case.get('shape') or [], case['ops']] + (['inst'] if case.get('inst') else []) + (['held'] if case.get('held') else []) + (['lazy'] if case.get('lazy') else [])
 
 
 def distribution(cases, obs):
@@ -1390,6 +1759,12 @@ def cq_iop(op, shape=()):
     t = op[0]
     if t == 'rawset':
         return '(RawSet %s %s %s)' % (CQ[op[1]], zlit(op[2]), optz(op[3]))
+    if t == 'hread':
+        return '(HRead %s %s %s)' % (zlit(op[1]), CQ[op[2]], CQ[CLSOF[op[3]]])
+    if t == 'hset':
+        return '(HSet %s %s %s)' % (zlit(op[1]), CQ[CLSOF[op[2]]], cq_inval(op[3]))
+    if t in ('hsync', 'hexpire'):
+        return '(%s %s %s)' % ('HSync' if t == 'hsync' else 'HExpire', zlit(op[1]), CQ[op[2]])
     if t in ('sync', 'syncupdate', 'expire'):
         return '(%s %s %s %s)' % ({'sync': 'Sync', 'syncupdate': 'SyncUpdate', 'expire': 'Expire'}[t], CQ[op[1]], zlit(op[2]), CQ[op[3]])
     return '(Old %s)' % cq_op(op, shape)
@@ -1411,6 +1786,8 @@ def cq_res(r):
         return 'OSkip'
     if t == 'err':
         return '(OErr %s)' % CQEXN.get(r[1], 'EOther')
+    if t == 'val':
+        return '(OVal %s)' % (optz(r[1]) if (r[1] is None or isinstance(r[1], int)) else '(Some (-99999))')
     if t in ('id', 'obj'):
         return '(OObj %s)' % cq_oobj(r[1], r[2], r[3])
     if t == 'ok':
@@ -1427,6 +1804,8 @@ def cq_tag(tg):
 
 
 def coq_case(c, o):
+    if c.get('lazy'):
+        return 'mkcase true false []'          # oracle-only stream: lazyUpdate is not in the Coq model
     steps = []
     for op, st in zip(c['ops'], o['steps']):
         tabs = '[%s]' % '; '.join('[%s]' % '; '.join('mkrow %s %s %s' % (zlit(r[0]), optz(r[1]), cq_tag(r[2])) for r in st['t'][k])
